@@ -895,12 +895,33 @@ def rule_D8(repo: Repo) -> RuleResult:
         raise AnalysisError("D8: slice branch of _group_func_wrap not found")
     s = canon_func(repo, NB, "_apply_group_method_single_chunk")
     ok_len = ok_nonzero = ok_else = False
+    def bool_arm(t: ast.expr):
+        """truth value of the test when the mask is a boolean array (None = not decided by that)"""
+        if isinstance(t, ast.UnaryOp) and isinstance(t.op, ast.Not):
+            v = bool_arm(t.operand)
+            return None if v is None else not v
+        if isinstance(t, ast.BoolOp):
+            vals = [bool_arm(v) for v in t.values]
+            if isinstance(t.op, ast.And):
+                return False if False in vals else (None if None in vals else True)
+            return True if True in vals else (None if None in vals else False)
+        if isinstance(t, ast.Compare) and len(t.ops) == 1:
+            l, r, op = norm(t.left), norm(t.comparators[0]).replace("'", '"'), t.ops[0]
+            if l == "mask" and r == "None":
+                return False if isinstance(op, ast.Is) else True if isinstance(op, ast.IsNot) else None
+            if l == "mask.dtype.kind" and r == '"b"':
+                return True if isinstance(op, ast.Eq) else False if isinstance(op, ast.NotEq) else None
+            if l == "mask.dtype" and r in ("bool", "np.bool_"):
+                return True if isinstance(op, ast.Eq) else False if isinstance(op, ast.NotEq) else None
+        return None
+
     for n in walk_no_nested(s.node):
-        if isinstance(n, ast.If) and 'mask.dtype.kind == "b"' in norm(n.test).replace("'", '"'):
-            body_txt = " ; ".join(norm(x) for x in n.body)
-            ok_len = "len(mask) != len(group_key)" in body_txt and "raise" in body_txt
+        if isinstance(n, ast.If) and "mask.dtype" in norm(n.test) and bool_arm(n.test) is not None:
+            b_arm, o_arm = (n.body, n.orelse) if bool_arm(n.test) else (n.orelse, n.body)
+            body_txt = " ; ".join(norm(x) for x in b_arm)
+            ok_len = ("len(mask) != len(group_key)" in body_txt or "len(group_key) != len(mask)" in body_txt) and "raise" in body_txt
             ok_nonzero = "indexer = mask.nonzero()[0]" in body_txt
-            else_txt = " ; ".join(norm(x) for x in n.orelse)
+            else_txt = " ; ".join(norm(x) for x in o_arm)
             ok_else = "indexer = mask" in else_txt and "check_in_bounds = True" in else_txt
             if ok_len and ok_nonzero and ok_else:
                 res.ok(s, n, "boolean mask: length-checked, nonzero(); otherwise positions with bounds check", "")
